@@ -1,6 +1,11 @@
 package main
 
 import (
+	"go/ast"
+	"go/parser"
+	"go/token"
+	"path/filepath"
+	"sync"
 	"strconv"
 	"regexp"
 	"encoding/json"
@@ -153,7 +158,62 @@ var c17Args = []string{`.a`, `.missing`, `__line__`, `__timestamp__`, `""`, `"x"
 
 // c17Template: 1-3 actions, each a call of a template function with 0-4 arguments drawn without regard to the
 // function's signature (small repeat/pad counts only: a huge count is a legitimate request for a huge string)
+// c17FuncsFromSource reads the names a template may call off internal/logql/logqlengine/template.go: the keys
+// of the FuncMap literal, the names assigned to funcMap[...] and the string elements of the sprig name list.
+// A function added to the code is thereby called by this family without anyone editing the list above.
+func c17FuncsFromSource() ([]string, error) {
+	fset := token.NewFileSet()
+	f, err := parser.ParseFile(fset, filepath.Join(repoDir, "internal/logql/logqlengine/template.go"), nil, 0)
+	if err != nil {
+		return nil, err
+	}
+	seen := map[string]bool{}
+	var out []string
+	add := func(lit ast.Expr) {
+		if b, ok := lit.(*ast.BasicLit); ok && b.Kind == token.STRING {
+			if s, err := strconv.Unquote(b.Value); err == nil && s != "" && !seen[s] {
+				seen[s] = true
+				out = append(out, s)
+			}
+		}
+	}
+	ast.Inspect(f, func(n ast.Node) bool {
+		switch x := n.(type) {
+		case *ast.CompositeLit:
+			for _, e := range x.Elts {
+				if kv, ok := e.(*ast.KeyValueExpr); ok {
+					add(kv.Key)
+				} else {
+					add(e)
+				}
+			}
+		case *ast.IndexExpr:
+			add(x.Index)
+		}
+		return true
+	})
+	if len(out) < 20 {
+		return nil, fmt.Errorf("only %d names found", len(out))
+	}
+	return out, nil
+}
+
+var c17FuncsOnce sync.Once
+
 func c17Template(r *rand.Rand) string {
+	c17FuncsOnce.Do(func() {
+		if names, err := c17FuncsFromSource(); err == nil {
+			have := map[string]bool{}
+			for _, n := range c17Funcs {
+				have[n] = true
+			}
+			for _, n := range names {
+				if !have[n] {
+					c17Funcs = append(c17Funcs, n)
+				}
+			}
+		}
+	})
 	var sb strings.Builder
 	for i, n := 0, 1+r.Intn(3); i < n; i++ {
 		sb.WriteString(pick(r, []string{"", "x ", "%"}))
